@@ -21,6 +21,12 @@ CLAIMS = {
  "C15": dict(level="proof", ref="DESIGN.md 5 C15",
    text="Coq theorems: CRC32C(ip || secret) is injective in the IPv4 address (explicit left inverse of the register update; bytewise feeding = xor of the little-endian word then 32 steps), so a token issued to ip1 validates for ip2 only by colliding with ip2's token under the other live secret; tokens of any length other than 4 are rejected; every write kind with a non-validating token gets 203; a token validates on every timeline of requests up to 5 minutes after issue; two rotations are more than 5 minutes apart and after two rotations the issuing secret is gone. Correspondence: model and node compute the same 4 token bytes from the seeded secrets; the rotation discipline is checked on the implementation's dumped secrets at every request across idle gaps and +-1 ms around 5:00.",
    note="As C03. Expiry '10 min + request gap' is stated as: gone after two rotations, rotations happen at the first handled request more than 5 min after the previous one (checked on the implementation per request); the 2^-32 collision event is an explicit disjunct."),
+ "C10": dict(level="proof", ref="DESIGN.md 5 C10",
+   text="PARTIAL. Proved in Coq for all messages: every dictionary the encoder emits (top level, a, r) has strictly ascending keys (canonical form), compact peer (6) / node (26) / signed peer (104) encodings decode to what was encoded, timestamps survive u64->i64->u64 over the full range, transaction ids are written as 4 bytes and read back, 2- and 4-byte ids accepted. NOT proved: the unbounded round trip of_bytes(to_bytes m) = norm m; it is evaluated by the check on every generated message of all 18 kinds with all optional-field combinations and boundary sizes, on the implementation's own bytes and its own decode result, together with exact byte-for-byte encoder correspondence and exact decoder correspondence on a structured neighbourhood / truncation / mutation stream (serde derive behaviour modelled: flatten, tagged enums, ordered untagged enum, list-form structs, serde_bytes accepting integer lists, stream desynchronisation on fixed arrays). BEP example messages decode and re-encode identically except for the known finding F15 (2-byte transaction id widened to 4 bytes).",
+   note="Trusted: Coq kernel; hand model of messages.rs/internal.rs/serde_bencode (lenient reader) validated by the correspondence; the round-trip statement itself is tested, not proved."),
+ "C05": dict(level="proof", ref="DESIGN.md 5 C05",
+   text="PARTIAL (codec level). Coq theorem: the model decoder returns a message or an error for every byte string, never a panic; the model is in exact decode correspondence with Message::from_bytes on a decode-heavy structured stream in the release AND debug builds, every datagram run under catch_unwind (a panic of the implementation is a violation by itself), plus a native sweep of ~200 000 neighbourhood/mutated datagrams and bencode nesting up to the 2048-byte MTU on a 2 MiB-stack thread.",
+   note="Node-level part (event loop survives sequences of datagrams, API mapping never reaches unreachable!(), u8 counters) is not decided by this check; see C08/C17 components. Panics inside third-party crates on paths outside the model are covered only by the native sweep."),
 }
 
 TECH = "Coq proof over hand-written Gallina model + differential correspondence (vm_compute) against the Rust implementation"
